@@ -140,7 +140,7 @@ INPUTS = {
     "fn": ["nil", "a.MkNil", "a.MkNew"],
     "fv": ["nil", "a.G0"],
     "nf": ["nil", "a.F(a.G0)"],
-    "any": ["nil", "1", '"s"', "(*int)(nil)", "new(int)", "[]int(nil)", "[]int{1}", "&a.T{}", "(*a.T)(nil)", "(*a.E)(nil)",
+    "any": ["nil", "1", "(*int)(nil)", "new(int)", "new(int)", "(*int)(nil)", '"s"', "[]int(nil)", "[]int{1}", "&a.T{}", "(*a.T)(nil)", "(*a.E)(nil)",
             "&a.E{}", "a.G0", "map[int]*int(nil)", "fullT()", "error((*a.E)(nil))"],
     "err": ["nil", "(*a.E)(nil)", "&a.E{}"],
     "ii": ["nil", "(*a.T)(nil)", "&a.T{}", "fullT()", "(*a.E)(nil)", "&a.E{}"],
@@ -281,6 +281,7 @@ class Gen:
         self.loop_depth = 0
         self.f = None
         self.forward = allow_forward  # Func that may be called although generated later (mutual recursion)
+        self.risk = 2 + rng.below(4)  # budget of operations that panic on nil / wrong dynamic type
 
     # ---- scopes
     def push(self):
@@ -366,7 +367,7 @@ class Gen:
             # prefer variables as depth grows
             if vs and r.chance(2 + 2 * d, 8):
                 return r.choice(vs)
-            if d >= 3:
+            if d >= 2:
                 if vs:
                     return r.choice(vs)
                 return self.leaf(t, bare)
@@ -380,14 +381,24 @@ class Gen:
                     if c:
                         return c
             prods = getattr(self, "e_" + t)(d)
+            if self.risk <= 0:
+                safe = [p for p in prods if not p.risky]
+                if safe:
+                    prods = safe
+                elif vs:
+                    return r.choice(vs)
+                else:
+                    return self.leaf(t, bare)
             return r.choice(prods)()
         # non pointer-like
         if t == "int":
             opts = ["0", "1", "2", "n"]
             if vs:
                 opts += vs * 2
-            if d < 3:
-                k = r.below(12)
+            if d < 3 and self.risk > 0:
+                k = r.below(16)
+                if k <= 2 or k == 6:
+                    self.risk -= 1
                 if k == 0:
                     self.feat("deref")
                     return "*" + self.expr("pint", d + 1)
@@ -430,10 +441,17 @@ class Gen:
             return self.nil_of(t, bare)
         return leaves[t]
 
+    RISKY = {"fieldaddr", "indexaddr", "field-load", "load-pp", "typeassert", "typeassert-ii", "typeassert-err",
+             "typeassert-iface", "call-dyn", "invoke", "static-method", "indexaddr-parr", "s2ap", "slice-nz", "slice-var",
+             "slice-parr", "slice-parr0", "iface-method-value", "load-iface", "global-addr-load", "make-slice"}
+
     def F(self, feat, fn):
         def g():
             self.feat(feat)
+            if feat in self.RISKY:
+                self.risk -= 1
             return fn()
+        g.risky = feat in self.RISKY
         return g
 
     def e_pint(self, d):
@@ -683,6 +701,9 @@ class Gen:
             out.append("%s%s = %s" % (ind, v, self.expr(t, bare=True)))
             return False
         if k < 46:      # uses that imply non-nil operands
+            if self.risk <= 0:
+                return False
+            self.risk -= 1
             u = r.below(9)
             if u == 0:
                 self.feat("deref")
@@ -903,7 +924,7 @@ class Gen:
                 out.append("\t\treturn " + ", ".join(names))
             self.pop()
             out.append("\t}")
-        self.block(0, out, "\t", 2 + r.below(5))
+        self.block(0, out, "\t", 1 + r.below(4))
         out.append("\t" + self.ret_stmt())
         self.pop()
         f.text = self.header(f) + " {\n" + "\n".join(out) + "\n}\n"
